@@ -156,7 +156,9 @@ def non_ascii_query(q):
 
 class World:
     def __init__(self):
-        from prometheus_client import CollectorRegistry, Counter, Gauge, Histogram, Info
+        from prometheus_client import CollectorRegistry, Counter, Gauge, Histogram, Info, Summary
+        from prometheus_client.metrics_core import Metric
+        self.Metric, self.CollectorRegistry = Metric, CollectorRegistry
         from prometheus_client import exposition
         from prometheus_client.openmetrics import exposition as om
         outer = self
@@ -183,21 +185,51 @@ class World:
         h = Histogram('lat_seconds', 'latency', unit='seconds', buckets=(0.1, 1.0), registry=self.reg)
         h.observe(0.05); h.observe(2.0)
         Gauge('up', 'plain gauge', registry=self.reg).set(1)
+        Summary('rt', 'a summary', registry=self.reg).observe(0.25)
         Info('build', 'build info', registry=self.reg).info({'version': '1'})
         self.enc = {'text': exposition.generate_latest, 'om': om.generate_latest}
         self.exposition = exposition
         self.cache = {}
+        self.families = None
         from prometheus_client.asgi import make_asgi_app
         self.wsgi = {d: exposition.make_wsgi_app(self.reg, disable_compression=d) for d in (False, True)}
         self.asgi = {d: make_asgi_app(self.reg, disable_compression=d) for d in (False, True)}
         self.hcls = exposition.MetricsHandler.factory(self.reg)
 
-    def expo(self, fmt, names):
-        """the expected body: that format's exposition of the (restricted) registry"""
-        key = (fmt, None if names is None else tuple(names))
+    def expo_lib(self, fmt, names):
+        """T2 only: what the model's opaque `expo f names` stands for — encoder_f(registry.restricted_registry(names))"""
+        key = ('lib', fmt, None if names is None else tuple(names))
         if key not in self.cache:
             reg = self.reg if names is None else self.reg.restricted_registry(list(names))
             self.cache[key] = self.enc[fmt](reg)
+        return self.cache[key]
+
+    def expo(self, fmt, names):
+        """ORACLE: the expected body, computed WITHOUT the library's restriction code.  The full registry is collected once;
+        for a restriction the samples are filtered here by sample name (exactly the samples whose name is in the set, C07),
+        families left empty are dropped, name/help/type/unit are kept; the filtered families are served by a tiny collector
+        in a fresh registry and encoded with the format's generate_latest."""
+        key = (fmt, None if names is None else tuple(sorted(set(names))))
+        if key not in self.cache:
+            if names is None:
+                self.cache[key] = self.enc[fmt](self.reg)
+            else:
+                if self.families is None:
+                    self.families = list(self.CollectorRegistry.collect(self.reg))
+                wanted, fams = set(names), []
+                for m in self.families:
+                    keep = [smp for smp in m.samples if smp.name in wanted]
+                    if keep:
+                        f = self.Metric(m.name, m.documentation, m.type, m.unit)
+                        f.samples = keep
+                        fams.append(f)
+
+                class Fixed:
+                    def collect(self_):
+                        return list(fams)
+                fresh = self.CollectorRegistry(auto_describe=False)
+                fresh.register(Fixed())
+                self.cache[key] = self.enc[fmt](fresh)
         return self.cache[key]
 
     # each driver returns dict(status=str, headers=[(n, v)], body=bytes, collects=int) or dict(error=class name)
@@ -396,7 +428,7 @@ def gen_malformed(rng, lit):
 
 NAME_KEYS = ['name[]', 'name[]', 'name%5B%5D', 'name%5b%5d', 'name[%5D', 'n%61me[]']
 OTHER_KEYS = ['foo', 'name', 'name[]x', 'xname[]', 'names[]', 'name%5B', 'NAME[]', 'name[][]', 'match[]']
-NAME_VALUES = ['reqs', 'reqs_total', 'reqs_created', 'temp_celsius', 'lat_seconds', 'lat_seconds_bucket', 'lat_seconds_sum', 'up',
+NAME_VALUES = ['reqs', 'reqs', 'lat_seconds', 'rt', 'build', 'rt_count', 'rt_sum', 'rt_created', 'lat_seconds_count', 'reqs', 'reqs_total', 'reqs_created', 'temp_celsius', 'lat_seconds', 'lat_seconds_bucket', 'lat_seconds_sum', 'up',
                'build_info', 'build', 'nonexistent', '', '', 'temp%5Fcelsius', 'u%70', 'a+b', '%C3%A9', 'up&', 'reqs%26up', 'up=1']
 
 
@@ -451,6 +483,8 @@ def corpus():
            c(acc=[OM + '\xa0']), c(acc=['\xc2\xa0' + OM]), c(acc=[OM + '\xff']), c(acc=['\xff, ' + OM + '\x85;q=1']),
            c(ae=['gzip\x85']), c(ae=['\xa0GZIP\xa0']), c(ae=['gzip\xff']), c(others=[['X-Bytes', '\xe9\xff'], ['X-\xe9', 'v']], acc=[OM]),
            c(q='name[]=up#x'), c(q='name[]=up#'), c(q='#name[]=up'), c(q='name[]=up%23x'), c(q='name[]=up?x=1'), c(q='name[]=up;name[]=reqs'),
+           c(q='name[]=reqs'), c(q='name[]=lat_seconds'), c(q='name[]=rt'), c(q='name[]=build'), c(q='name[]=reqs&name[]=reqs_total'),
+           c(q='name[]=rt&name[]=rt_sum&name[]=up', acc=[OM]), c(q='name[]=lat_seconds&name[]=lat_seconds_bucket&name[]=build_info', ae=['gzip']),
            c(q='&&name[]=up&&'), c(q='=&==&name[]'), c(acc=[OM], q='a=1#name[]=up')]
     out = [wire_case(x) for x in out]
     for m in METHODS:
@@ -478,6 +512,24 @@ def gen_case(rng):
 
 
 # ------------------------------------------------------------------------------------------------ evaluation
+def blocks(body):
+    """an exposition as the multiset of its family blocks (a block starts at a `# HELP` line; `# EOF` is its own block):
+    the order of families in a RESTRICTED exposition is the iteration order of a Python set, which nothing pins"""
+    out, cur = [], []
+    for line in body.splitlines(keepends=True):
+        if line.startswith(b'# HELP ') or line.startswith(b'# EOF'):
+            if cur: out.append(b''.join(cur))
+            cur = []
+        cur.append(line)
+    if cur: out.append(b''.join(cur))
+    return tuple(sorted(out))
+
+
+def same_expo(body, exp, restricted):
+    """exact for the unrestricted exposition, up to the order of family blocks for a restricted one"""
+    return body == exp if not restricted else blocks(body) == blocks(exp)
+
+
 def hval(r, name):
     vs = [v for n, v in (r.get('headers') or []) if n == name]
     return vs
@@ -522,7 +574,7 @@ def oracle_get(world, fe, r, acc, ae, names, compression, case):
     exp = world.expo(fmt, restr)
     if prob:
         fails.append(('C17:body', '%s: %s' % (fe, prob)))
-    elif body != exp:
+    elif not same_expo(body, exp, restr is not None):
         if fe == 'asgi' and restr is not None and body == world.expo(fmt, None):
             fails.append((SIG_F12, 'ASGI app ignores name[]: query %r must restrict to %r but the unrestricted exposition was served'
                           % ('?', names)))
@@ -530,9 +582,17 @@ def oracle_get(world, fe, r, acc, ae, names, compression, case):
             fails.append(('C17:body', '%s: body is gzip-compressed without a Content-Encoding header' % fe))
         else:
             other = 'om' if fmt == 'text' else 'text'
-            hint = ' (it is the %s exposition)' % other if body == world.expo(other, restr) else (
+            hint = ' (it is the %s exposition)' % other if same_expo(body, world.expo(other, restr), restr is not None) else (
                 ' (it is the unrestricted exposition)' if restr is not None and body == world.expo(fmt, None) else '')
-            fails.append(('C17:body', '%s: body is not the %s exposition of the registry restricted to %r%s'
+            if not hint and restr is not None:
+                got, want = set(blocks(body)), set(blocks(exp))
+                extra = sorted(l.split(b' ')[0].split(b'{')[0].decode('latin-1') for b in got - want for l in b.splitlines()
+                               if l and not l.startswith(b'#'))
+                miss = sorted(l.split(b' ')[0].split(b'{')[0].decode('latin-1') for b in want - got for l in b.splitlines()
+                              if l and not l.startswith(b'#'))
+                hint = ' (family blocks with series %s are not the expected ones%s)' % (
+                    sorted(set(extra))[:8], '; expected blocks with series %s' % sorted(set(miss))[:8] if miss else '')
+            fails.append(('C17:body', '%s: body is not the %s exposition of the registry restricted to the sample names %r%s'
                           % (fe, fmt, restr, hint)))
     if r['collects'] < 1:
         fails.append(('C17:body', '%s: 200 served without collecting' % fe))
@@ -625,7 +685,7 @@ def compare_model(world, fe, real, model):
     if kind == 'empty':
         if real['body'] != b'': return '%s body %r, model: empty' % (fe, real['body'][:40])
     elif kind == 'expo':
-        exp = world.expo(f, restr)
+        exp = world.expo_lib(f, restr)
         body = real['body']
         try:
             for _ in range(n):
@@ -680,7 +740,8 @@ def eval_case(world, case):
             f12 = any(s in (SIG_F12, SIG_F12B, SIG_HDRBYTES) for s, _ in fails)
             def view(r):
                 if 'error' in r: return ('error', r['error'])
-                return (str(r['status'])[:3], hval(r, 'Content-Type'), hval(r, 'Content-Encoding'), decoded_body(r)[0])
+                b = decoded_body(r)[0]
+                return (str(r['status'])[:3], hval(r, 'Content-Type'), hval(r, 'Content-Encoding'), None if b is None else blocks(b))
             group = [('wsgi', res['wsgi', False])]
             if not f12: group.append(('asgi', res['asgi', False]))
             if not dup and law: group.append(('handler', res['handler', False]))
